@@ -4,23 +4,23 @@ import "sort"
 
 // Aggregate is what a worker reports for a batch of runs.
 type Aggregate struct {
-	Runs        int64            `json:"runs"`
-	SimNS       int64            `json:"sim_ns"`
-	Events      int64            `json:"events"`
-	Faults      map[string]int64 `json:"faults"`
-	Probes      map[string]int64 `json:"probes"`
-	Oblig       int64            `json:"oblig"`
-	InFlight    int64            `json:"inflight"`
-	Nontrivial  int64            `json:"nontrivial"`
-	FaultFree   int64            `json:"fault_free_runs"`
-	LeakedRuns  int64            `json:"leaked_runs"`
-	ViolRuns    int64            `json:"viol_runs"`
-	Hashes      []string         `json:"hashes"`
-	NTHashes    []string         `json:"nt_hashes"`
-	Samples     []map[string]any `json:"samples"`
-	WallS       float64          `json:"wall_s"`
-	hashSet     map[string]bool
-	ntSet       map[string]bool
+	Runs       int64            `json:"runs"`
+	SimNS      int64            `json:"sim_ns"`
+	Events     int64            `json:"events"`
+	Faults     map[string]int64 `json:"faults"`
+	Probes     map[string]int64 `json:"probes"`
+	Oblig      int64            `json:"oblig"`
+	InFlight   int64            `json:"inflight"`
+	Nontrivial int64            `json:"nontrivial"`
+	FaultFree  int64            `json:"fault_free_runs"`
+	LeakedRuns int64            `json:"leaked_runs"`
+	ViolRuns   int64            `json:"viol_runs"`
+	Hashes     []string         `json:"hashes"`
+	NTHashes   []string         `json:"nt_hashes"`
+	Samples    []map[string]any `json:"samples"`
+	WallS      float64          `json:"wall_s"`
+	hashSet    map[string]bool
+	ntSet      map[string]bool
 }
 
 // NewAggregate returns an empty aggregate.
